@@ -395,7 +395,7 @@ class BioConsert(RankAggAlgorithm, PairwiseBasedAlgorithm):
             cpt += n
 
     def _departure_rankings(self, dataset: Dataset, scoring_scheme: ScoringScheme, unify: bool = True,
-                            all_tied_as_well: bool = True) -> ndarray:
+                            all_tied_as_well: bool = True, mapping_elem_id: Dict[Element, int] = None) -> ndarray:
         """
 
         :param dataset: the dataset to consider
@@ -410,6 +410,11 @@ class BioConsert(RankAggAlgorithm, PairwiseBasedAlgorithm):
         else:
             dataset_to_consider = dataset
 
+        # the departure rankings are arrays indexed by the ids of the elements in the input dataset: the datasets
+        # created here (unified rankings, consensus of the starting algorithms) have their own, different, ids
+        if mapping_elem_id is None:
+            mapping_elem_id = dataset.mapping_elem_id
+
         # if user set some starting algorithms,
         # the departure rankings are the consensus computed by the selected algorithms
 
@@ -421,12 +426,17 @@ class BioConsert(RankAggAlgorithm, PairwiseBasedAlgorithm):
             # and do not need to be unified
             rankings_cons = [alg.compute_consensus_rankings(dataset, scoring_scheme, True).consensus_rankings[0]
                              for alg in self._starting_algorithms]
-            return BioConsert()._departure_rankings(Dataset(rankings_cons), scoring_scheme, False, False)
+            return BioConsert()._departure_rankings(Dataset(rankings_cons), scoring_scheme, False, False,
+                                                    mapping_elem_id)
 
         else:
 
             # get for each departure ranking the initial value of kemeny score with the input Dataset
-            bucket_ids: ndarray = dataset_to_consider.get_bucket_ids().transpose()
+            bucket_ids: ndarray = zeros((dataset_to_consider.nb_rankings, dataset_to_consider.nb_elements), dtype=np_int32)
+            for id_ranking, ranking in enumerate(dataset_to_consider.rankings):
+                for id_bucket, bucket in enumerate(ranking):
+                    for element in bucket:
+                        bucket_ids[id_ranking][mapping_elem_id[element]] = id_bucket
 
             # to be sure that all the departure rankings are different, use a dct
             distinct_rankings: Set[Tuple[int, ...]] = set()
